@@ -168,6 +168,7 @@ type Exec struct {
 	paramEnv   map[string]TVal
 	propsOver  []string
 	topEnv     *Env
+	csCases    map[int][]oblCase // callsite clauses: cases collected per clause (keyed by its line)
 	sweep      bool
 	pending    *pendingStore
 	errflow    bool
@@ -279,6 +280,10 @@ func (x *Exec) oblige(kind, anchor, guard, goal, desc string, pos token.Pos) {
 // obligeCases records one obligation made of several queries (one per
 // return site); afterwards every case may be assumed.
 func (x *Exec) obligeCases(kind, anchor string, cases []oblCase, desc string, pos token.Pos) {
+	x.obligeCasesIdx(kind, anchor, cases, desc, pos, false)
+}
+
+func (x *Exec) obligeCasesIdx(kind, anchor string, cases []oblCase, desc string, pos token.Pos, keepIdx bool) {
 	var keep []oblCase
 	for _, c := range cases {
 		if c.Goal != "true" {
@@ -289,7 +294,9 @@ func (x *Exec) obligeCases(kind, anchor string, cases []oblCase, desc string, po
 		return
 	}
 	for i := range keep {
-		keep[i].Idx = len(x.cmds)
+		if !keepIdx {
+			keep[i].Idx = len(x.cmds)
+		}
 	}
 	fname := x.fn.String()
 	if x.errflow {
